@@ -13,5 +13,5 @@ def resource_filename(pkg, name):
     return os.path.join(os.path.dirname(importlib.import_module(pkg).__file__), name)
 PY
 cd $d/repo
-PATH=$d/repo/bin:$PATH PYTHONPATH=$d/repo:$d/shim env -u VERMOUTH_VERIF /venv/bin/python -m pytest -q -rf -p no:cacheprovider -n ${N:-8} --timeout=900 "$@" vermouth 2>&1 | grep "^FAILED\|passed\|failed" | tail -${TAIL:-5}
+PATH=$d/repo/bin:$PATH PYTHONPATH=$d/repo:$d/shim env -u VERMOUTH_VERIF /venv/bin/python -m pytest -q -rf -p no:cacheprovider -n ${N:-8} --timeout=900 "$@" vermouth 2>&1 | grep -a "^FAILED\|passed\|failed" | tail -${TAIL:-5}
 cd /; rm -rf $d
